@@ -217,7 +217,7 @@ func (b *MirroredBuffer) Commit(n int) int {
 		n = free
 	}
 	b.used += n
-	b.tail = (b.tail + n) & b.sizeMask
+	b.tail = (b.tail + n) % b.size
 	return n
 }
 
@@ -229,7 +229,7 @@ func (b *MirroredBuffer) Consume(n int) int {
 		return 0
 	}
 	b.used -= n
-	b.head = (b.head + n) & b.sizeMask
+	b.head = (b.head + n) % b.size
 	return n
 }
 
